@@ -11,6 +11,8 @@
 pub use std::sync::{Arc, RwLock, RwLockReadGuard, RwLockWriteGuard, Weak};
 
 #[cfg(cfb_verif)]
+pub use self::traced::set_lock_jitter;
+#[cfg(cfb_verif)]
 pub use self::traced::{
     current_thread_id, set_lock_tracing, take_lock_events, LockEvent, RwLock,
     RwLockReadGuard, RwLockWriteGuard,
@@ -44,6 +46,8 @@ mod traced {
     }
 
     static TRACING: AtomicBool = AtomicBool::new(false);
+    static JITTER_US: AtomicU64 = AtomicU64::new(0);
+    static JITTER_COUNT: AtomicU64 = AtomicU64::new(0);
     static NEXT_THREAD: AtomicU64 = AtomicU64::new(1);
     static LOG: Mutex<(u64, Vec<LockEvent>)> = Mutex::new((0, Vec::new()));
 
@@ -65,6 +69,25 @@ mod traced {
     /// Turns recording of lock events on or off (off by default).
     pub fn set_lock_tracing(on: bool) {
         TRACING.store(on, Ordering::SeqCst);
+    }
+
+    /// Schedule perturbation for multi-threaded test runs (off by default):
+    /// with `max_us > 0`, every third acquisition of shared access pauses for
+    /// up to `max_us` microseconds while holding its guard.  Timing only; what
+    /// the lock grants and in which order is left to `std::sync::RwLock`.
+    pub fn set_lock_jitter(max_us: u64) {
+        JITTER_US.store(max_us, Ordering::SeqCst);
+    }
+
+    fn jitter() {
+        let max_us = JITTER_US.load(Ordering::Relaxed);
+        if max_us > 0 {
+            let count = JITTER_COUNT.fetch_add(1, Ordering::Relaxed);
+            if count % 3 == 0 {
+                let us = count.wrapping_mul(2_654_435_761) % max_us;
+                std::thread::sleep(std::time::Duration::from_micros(us));
+            }
+        }
     }
 
     /// Removes and returns all lock events recorded so far.
@@ -118,6 +141,7 @@ mod traced {
             let result = self.inner.read();
             record("acq_r", depth(), site);
             depth_add(1);
+            jitter();
             match result {
                 Ok(inner) => Ok(RwLockReadGuard { inner, site }),
                 Err(err) => Err(PoisonError::new(RwLockReadGuard {
